@@ -2,7 +2,8 @@
 //! simple in-memory model of the stored entries. Command sequences over 2 authors x 2 logs: insert chains of length
 //! 0..=4, then optionally delete one operation, delete one payload, prune one log; after every command ALL queries are
 //! compared with the model: latest entry, log heights for several sets of logs (empty set, unknown logs, duplicates,
-//! partially populated sets), ranged entries and ranged sizes for a grid of (after, until) including Some(0) and MAX.
+//! partially populated sets), ranged entries and ranged sizes for a grid of (after, until) including Some(0) and MAX (None and Some((0, 0)) both count as
+//! "nothing in range", but all empty ranges must be answered the same way).
 //! Also: no query may panic. Bounded; never counted as proved.
 use p2panda_core::{Hash, Operation, SigningKey, VerifyingKey};
 use p2panda_store::SqliteStore;
@@ -15,6 +16,9 @@ type Op = Operation<()>;
 type Model = BTreeMap<(usize, u64), Vec<Op>>; // (author index, log) -> stored entries ordered by seq
 
 async fn compare(store: &SqliteStore, keys: &[SigningKey], m: &Model, ctx: &Value, rep: &mut dyn FnMut(&str, Value, Value), n: &mut u64) {
+    // how an empty range is answered (None or Some((0, 0))) is not fixed by the statement, but a model of the stored entries
+    // answers every empty range the same way: the first answer seen is the reference for the rest of this comparison
+    let mut empty_answer: Option<(bool, Value)> = None;
     for (ai, sk) in keys.iter().enumerate() {
         let vk = sk.verifying_key();
         for log in [1u64, 2, 9] {
@@ -37,7 +41,13 @@ async fn compare(store: &SqliteStore, keys: &[SigningKey], m: &Model, ctx: &Valu
                 }
                 let want_size = if in_range.is_empty() { None } else { Some((in_range.len() as u32, in_range.iter().map(|o| o.header.to_bytes().len() as u32 + o.header.payload_size as u32).sum::<u32>())) };
                 match LogStore::<Op, VerifyingKey, u64, u32, Hash>::get_log_size(store, &vk, &log, after, until).await {
-                    Ok(g) => { let g = g.filter(|x| x.0 != 0); if g != want_size { rep("ranged-size-differs-from-model", json!({"ctx": ctx, "author": ai, "log": log, "after": after, "until": until}), json!({"got": g, "want": want_size})); } }
+                    Ok(g) => {
+                        if in_range.is_empty() && g.map(|x| x.0 == 0).unwrap_or(true) {
+                            let here = json!({"author": ai, "log": log, "after": after, "until": until});
+                            match &empty_answer { None => empty_answer = Some((g.is_none(), here)),
+                                Some((first_none, first)) => if *first_none != g.is_none() { rep("empty-range-size-answer-not-uniform", json!({"ctx": ctx, "first_empty_range": first, "this_empty_range": here}), json!({"first_answer_is_none": first_none, "this_answer_is_none": g.is_none()})); } }
+                        }
+                        let g = g.filter(|x| x.0 != 0); if g != want_size { rep("ranged-size-differs-from-model", json!({"ctx": ctx, "author": ai, "log": log, "after": after, "until": until}), json!({"got": g, "want": want_size})); } }
                     Err(e) => if want_size.is_some() { rep("ranged-size-query-fails", json!({"ctx": ctx, "author": ai, "log": log, "after": after, "until": until}), json!({"error": e.to_string()})) },
                 }
             } }
@@ -146,6 +156,6 @@ fn main() {
     for (c, i, o) in out { if reported.insert(c.clone()) { rp_core::report(true, &c, i, o, if c.contains("large-totals") { &["logstore_glue::LogStore@SqliteStore::get_log_size.safety"][..] } else { &[][..] }); } }
     println!("{}", json!({"summary": true, "function": "p2panda-store/src/logs/sqlite/mod.rs LogStore@SqliteStore (get_latest_entry / get_log_heights / get_log_entries / get_log_size / prune_entries)",
         "evaluations": n, "distinct_nontrivial": scenarios, "exhaustive": true,
-        "rule": "every query of the real SQLite log store compared with an in-memory model after each command of: insert 3 chains (2 authors, 2 logs), delete an operation, delete a payload, prune; (after, until) grid incl. Some(0) and MAX; log sets incl. empty, unknown, duplicate, partially populated; distinct_nontrivial = command scenarios",
+        "rule": "every query of the real SQLite log store compared with an in-memory model after each command of: insert 3 chains (2 authors, 2 logs), delete an operation, delete a payload, prune; (after, until) grid incl. Some(0), MAX and after >= until (empty ranges: None or Some((0,0)), but uniformly); log sets incl. empty, unknown, duplicate, partially populated; distinct_nontrivial = command scenarios",
         "bound": format!("chain lengths {:?}, 1 delete, 1 payload delete, 1 prune per scenario", lens), "violating_classes": reported}));
 }
